@@ -362,6 +362,68 @@ theorem bug_witness : observe (runBug witnessFile) ≠ (specAtoms witnessFile).m
 /-- the same file through the repaired step -/
 example : observe (run witnessFile) = (specAtoms witnessFile).map some := by decide +kernel
 
+/-! ### one entry per atom line — whatever the lines say
+
+    `AtomLine.tag` stands for name and position, and nothing above asks the tags (or any other column) of different
+    atom lines to differ: atom names are unique only within a residue / PART, a valid file may hold the same line
+    several times (a solvent molecule pasted twice as start model, the copies told apart by RESI number and PART). -/
+
+def isAtomLine : Line → Bool | .atom _ => true | _ => false
+def isFragLine : Line → Bool | .frag _ => true | _ => false
+
+theorem inFrag_false_of_no_frag (before : List Line) (h : ∀ l ∈ before, isFragLine l = false) : inFrag before = false := by
+  induction before with
+  | nil => rfl
+  | cons l ls ih =>
+    have hl := h l (by simp)
+    have := ih (fun x hx => h x (by simp [hx]))
+    cases l <;> simp_all [inFrag, isFragLine]
+
+theorem specFrom_length_no_frag (file before : List Line) (hb : ∀ l ∈ before, isFragLine l = false)
+    (hf : ∀ l ∈ file, isFragLine l = false) : (specFrom before file).length = (file.filter isAtomLine).length := by
+  induction file generalizing before with
+  | nil => rfl
+  | cons l rest ih =>
+    have hl := hf l (by simp)
+    have hb' : ∀ x ∈ l :: before, isFragLine x = false := by
+      intro x hx
+      rcases List.mem_cons.mp hx with h | h
+      · rw [h]; exact hl
+      · exact hb x h
+    have hrest := ih (l :: before) hb' (fun x hx => hf x (by simp [hx]))
+    have hin := inFrag_false_of_no_frag before hb
+    cases l <;> simp_all [specFrom, contrib, isAtomLine, List.filter_cons]
+
+/-- **one_entry_per_atom_line** — the atom list of a valid file has as many entries as the specification lists, and in a
+    file without FRAG blocks that is the number of its atom lines: no line is merged with or taken for another one,
+    whether or not their columns agree. -/
+theorem one_entry_per_atom_line (file : List Line) (hv : valid file = true) :
+    (run file).atoms.length = (specAtoms file).length ∧
+    ((∀ l ∈ file, isFragLine l = false) → (run file).atoms.length = (file.filter isAtomLine).length) := by
+  have h := congrArg List.length (atoms_match_spec file hv)
+  simp only [observe, List.length_map] at h
+  refine ⟨h, fun hf => ?_⟩
+  rw [h]
+  exact specFrom_length_no_frag file [] (by simp) hf
+
+/-- the same two lines in `RESI 1 MEOH / PART 1` and in `RESI 2 MEOH / PART 2` (equal tags: same names, same positions),
+    and once more an atom of that name in residue 0 -/
+def twinFile : List Line :=
+  [.atom ⟨1, 1, 11, [5/100]⟩, .resi "MEOH" 1, .part 1 11, .atom ⟨0, 3, 21/2, [4/100]⟩, .atom ⟨1, 1, 21/2, [4/100]⟩, .part 0 11,
+   .resi "MEOH" 2, .part 2 11, .atom ⟨0, 3, 21/2, [4/100]⟩, .atom ⟨1, 1, 21/2, [4/100]⟩, .part 0 11, .resi "" 0, .hklf 1, .fin]
+
+example : valid twinFile = true := by decide +kernel
+
+example : (observe (run twinFile)).length = 5 ∧
+    (specAtoms twinFile).map (fun o => (o.tag, o.resiNum, o.part)) = [(1, 0, 0), (0, 1, 1), (1, 1, 1), (0, 2, 2), (1, 2, 2)] := by
+  decide +kernel
+
+/-- **eq_guard_fails_on** — an `Atoms.append` that skips an atom equal (`Atom.__eq__`: the printed line) to one already in
+    the list loses the copies in the second residue. -/
+theorem eq_guard_fails_on : observe (runGuard twinFile) ≠ (specAtoms twinFile).map some := by decide +kernel
+
+example : (runGuard twinFile).atoms.length = 3 := by decide +kernel
+
 /-- second witness: an AFIX left open swallows HKLF (the `elif` chain is never entered), a peak listed between
     HKLF and END is then not a Q-peak, and the PART occupancy lands on it -/
 theorem bug_witness_afix_hklf :
